@@ -149,6 +149,10 @@ func (k Keeper) GetCurrentQueryInCycleList(ctx context.Context) ([]byte, error) 
 	if err != nil {
 		return nil, err
 	}
+	// the sequencer can point past the end after the cycle list was replaced by a shorter one
+	if idx >= uint64(len(q)) {
+		idx = 0
+	}
 
 	return q[idx], nil
 }
